@@ -152,6 +152,11 @@ def session_spec(draw, max_datasets=3, datetime=True, joins=True, links=True):
             dspec["datetime"] = [int(draw(st.integers(0, 5))) for _ in range(dspec["shape"][0])]
         dspec["style"] = draw(style_spec())
         dspec["units"] = [draw(st.sampled_from([None, None, "Jy", "km / s", "m"])) for _ in dspec["comps"]]
+        for cc in dspec["comps"]:
+            if cc["kind"] == "cat" and draw(st.booleans()):
+                present = sorted(set(cc["vals"]))
+                order = list(draw(st.permutations(present))) + (["zz"] if draw(st.booleans()) else [])
+                cc["categories"] = order
         dspec["meta"] = draw(st.sampled_from([{}, {"origin": "test", "n": 3}, {"k": [1, 2, 3], "unserialisable": "OBJECT"}]))
         datasets.append(dspec)
     lks = []
